@@ -174,30 +174,44 @@ var knownOs = map[string]bool{
 	"darwin":    true,
 	"dragonfly": true,
 	"freebsd":   true,
+	"hurd":      true,
 	"illumos":   true,
 	"ios":       true,
 	"js":        true,
 	"linux":     true,
+	"nacl":      true,
 	"netbsd":    true,
 	"openbsd":   true,
 	"plan9":     true,
 	"solaris":   true,
 	"wasip1":    true,
 	"windows":   true,
+	"zos":       true,
 }
 
 var knownArch = map[string]bool{
-	"386":      true,
-	"amd64":    true,
-	"arm":      true,
-	"arm64":    true,
-	"loong64":  true,
-	"mips":     true,
-	"mips64":   true,
-	"mips64le": true,
-	"mipsle":   true,
-	"ppc64":    true,
-	"ppc64le":  true,
-	"s390x":    true,
-	"wasm":     true,
+	"386":         true,
+	"amd64":       true,
+	"amd64p32":    true,
+	"arm":         true,
+	"armbe":       true,
+	"arm64":       true,
+	"arm64be":     true,
+	"loong64":     true,
+	"mips":        true,
+	"mipsle":      true,
+	"mips64":      true,
+	"mips64le":    true,
+	"mips64p32":   true,
+	"mips64p32le": true,
+	"ppc":         true,
+	"ppc64":       true,
+	"ppc64le":     true,
+	"riscv":       true,
+	"riscv64":     true,
+	"s390":        true,
+	"s390x":       true,
+	"sparc":       true,
+	"sparc64":     true,
+	"wasm":        true,
 }
